@@ -169,6 +169,9 @@ def _src(case):
         imphook.reset_logs()
     words = [0x0A0B0C01 + i * 0x01010101 for i in range(8)]
     src = {'t': case.get('t', 'PS'), 'ascii': ascii_.ljust(32), 'words': words, 'wc': wc}
+    if not plugins:
+        # with callouts that name a maintenance procedure: the callout parser module is a parser module too
+        src['callouts'] = [pelgen.CALLOUT_PROC, pelgen.CALLOUT_FULL]
     r = decode.parse(pelgen.encode_pel(pelgen.pel_from_spec({'creator': cr, 'sections': [src, SENT]})), plugins=plugins)
     if r['kind'] != 'doc':
         _bad(out, case, 'not-decoded', '%s %s' % (r['kind'], r.get('msg')))
@@ -176,7 +179,8 @@ def _src(case):
     calls = [c for c in imphook.CALLS if c[1] == 'parseSRCToJson']
     if not plugins:
         if imphook.IMPORTS or imphook.CALLS:
-            _bad(out, case, 'import-with-plugins-disabled', 'imports %s' % imphook.IMPORTS[:3])
+            _bad(out, case, 'import-with-plugins-disabled', 'imports %s calls %s' % (imphook.IMPORTS[:3], [c[:2] for c in imphook.CALLS[:3]]))
+        _no_descriptions(out, case, r['doc'].get('Primary SRC' if src['t'] == 'PS' else 'Secondary SRC'))
         return out
     LAST['nt'] = True
     name = cr.lower() + 'src'
@@ -196,6 +200,27 @@ def _src(case):
     return out
 
 
+def _no_descriptions(out, case, srcdoc):
+    """with parser modules disabled no callout carries a procedure description (only a callout parser supplies one)"""
+    def walk(x):
+        if isinstance(x, dict):
+            if 'Procedure' in x and 'Description' in x:
+                return x
+            for v in x.values():
+                f = walk(v)
+                if f:
+                    return f
+        elif isinstance(x, list):
+            for v in x:
+                f = walk(v)
+                if f:
+                    return f
+        return None
+    f = walk(srcdoc)
+    if f:
+        _bad(out, case, 'callout-parser-with-plugins-disabled', 'procedure %r shown with description %r' % (f.get('Procedure'), f.get('Description')))
+
+
 def _osrc(case):
     out = []
     ascii_ = case['ascii']
@@ -207,13 +232,16 @@ def _osrc(case):
         imphook.forget_modules()
         imphook.reset_logs()
         before = plugin_modules()
+        src['callouts'] = [pelgen.CALLOUT_PROC, pelgen.CALLOUT_FULL]
         r = decode.parse(pelgen.encode_pel(pelgen.pel_from_spec({'creator': case.get('creator', 'O'), 'sections': [src, SENT]})), plugins=False)
         LAST['nt'] = True
         if r['kind'] != 'doc':
             _bad(out, case, 'not-decoded', '%s %s' % (r['kind'], r.get('msg')))
         elif imphook.IMPORTS or imphook.CALLS or plugin_modules() != before:
-            _bad(out, case, 'import-with-plugins-disabled', 'imports %s, sys.modules gained %s' % (
-                imphook.IMPORTS[:3], sorted(set(plugin_modules()) - set(before))))
+            _bad(out, case, 'import-with-plugins-disabled', 'imports %s, calls %s, sys.modules gained %s' % (
+                imphook.IMPORTS[:3], [c[:2] for c in imphook.CALLS[:3]], sorted(set(plugin_modules()) - set(before))))
+        else:
+            _no_descriptions(out, case, r['doc'].get('Primary SRC'))
         return out
     r = decode.parse(pelgen.encode_pel(pelgen.pel_from_spec({'creator': case.get('creator', 'O'), 'sections': [src, SENT]})))
     if r['kind'] != 'doc':
